@@ -44,6 +44,10 @@ func (c *classMap) UnmarshalJSON(b []byte) error {
 // rec is one scenario: the abstract event and the key sets the specification keeps.
 type rec struct {
 	Fam    string   `json:"fam"` // "raw" | "pdu" | "probe" (Raw given)
+	// "lattice" | "vocab" (unlisted keys drawn from the member names of the library's sources) | "hist" (Hist: the
+	// calls the process handled before)
+	Kind string     `json:"kind,omitempty"`
+	Hist []histCall `json:"hist,omitempty"`
 	Ver    string   `json:"ver"`
 	Algo   int      `json:"algo"`
 	Type   string   `json:"type"`
@@ -187,6 +191,8 @@ func stdTop(k string) json.RawMessage {
 		return json.RawMessage(`1700000000123`)
 	case "redacts":
 		return json.RawMessage(`"$redacted:` + hs1 + `"`)
+	case "sticky", "msc4354_sticky": // MSC4354
+		return json.RawMessage(`{"duration_ms":60000}`)
 	}
 	return json.RawMessage(q("std-" + k))
 }
@@ -378,6 +384,13 @@ func pduEvent(r *rec) ([]byte, gmsl.PDU) {
 	delete(ev, "signatures")
 	ev["hashes"] = contentHash(ev)
 	p, err := ver.NewEventFromTrustedJSON(marshalRawMap(ev), false)
+	if err != nil && r.Kind == "vocab" {
+		// a vocabulary name may be a member the event parser types: values are opaque to redaction, so such a
+		// key takes the first value class with which the event parses
+		fitTypedKeys(r, ver, ev)
+		ev["hashes"] = contentHash(ev)
+		p, err = ver.NewEventFromTrustedJSON(marshalRawMap(ev), false)
+	}
 	if err != nil {
 		panic(fmt.Sprintf("harness: composed event does not parse: %v: %s", err, marshalRawMap(ev)))
 	}
@@ -385,6 +398,34 @@ func pduEvent(r *rec) ([]byte, gmsl.PDU) {
 		p = p.Sign(s.name, s.key, s.priv)
 	}
 	return p.JSON(), built
+}
+
+// fitTypedKeys re-realises the additional top-level keys of a vocab record that keep the event from parsing.
+func fitTypedKeys(r *rec, ver gmsl.IRoomVersion, ev map[string]json.RawMessage) {
+	base := map[string]json.RawMessage{}
+	var extras []string
+	for k, v := range ev {
+		switch k {
+		case "type", "content", "sender", "room_id", "depth", "prev_events", "auth_events", "origin_server_ts", "hashes", "event_id", "state_key":
+			base[k] = v
+		default:
+			extras = append(extras, k)
+		}
+	}
+	sort.Strings(extras)
+	for _, k := range extras {
+		for _, cls := range []string{"", "esc", "zero", "obj", "eobj", "arr", "false", "null"} {
+			if cls != "" {
+				ev[k] = realise(cls, k)
+			}
+			base[k] = ev[k]
+			_, err := ver.NewEventFromTrustedJSON(marshalRawMap(base), false)
+			delete(base, k)
+			if err == nil {
+				break
+			}
+		}
+	}
 }
 
 func valueOfTop(k, cls string) json.RawMessage {
